@@ -1308,3 +1308,60 @@ func c16r9(rc *core.RC) {
 		rc.Unknown("encoder/node-operations", token.NoPos, "found %d operation constants in the ToOpcode methods of the scalar and container nodes (confirmed: 24)", n)
 	}
 }
+
+// ---- C16.R10 an unsigned value is range-tested as an unsigned value ----
+
+// The unsigned decoder parses the digits into a uint64 and compares it with the bounds of the destination kind
+// before it stores. The comparison has to be made on the unsigned value. Converted to int64 first, every value from
+// 2^63 up is negative and passes a signed range test from below: 18446744073709551615 is stored into a uint8 as 255
+// without an error. Obligation: no method of uintDecoder converts a uint64 to a signed integer type.
+func c16r10(rc *core.RC) {
+	p := rc.P
+	pk := p.Pkg("decoder")
+	if pk == nil {
+		rc.Unknown("decoder", token.NoPos, "package not found")
+		return
+	}
+	info := pk.TypesInfo
+	n := 0
+	for _, fd := range p.Funcs("decoder") {
+		if fd.Body == nil || fd.Recv == nil {
+			continue
+		}
+		fn, _ := info.Defs[fd.Name].(*types.Func)
+		if fn == nil || !strings.HasSuffix(fn.Type().(*types.Signature).Recv().Type().String(), "decoder.uintDecoder") {
+			continue
+		}
+		n++
+		name := p.FuncName(fd)
+		rc.Touch(name)
+		var bad ast.Node
+		ast.Inspect(fd.Body, func(m ast.Node) bool {
+			c, ok := m.(*ast.CallExpr)
+			if !ok || len(c.Args) != 1 || bad != nil {
+				return true
+			}
+			tv, isConv := info.Types[c.Fun]
+			if !isConv || !tv.IsType() {
+				return true
+			}
+			to, ok := tv.Type.Underlying().(*types.Basic)
+			if !ok || to.Info()&types.IsInteger == 0 || to.Info()&types.IsUnsigned != 0 {
+				return true
+			}
+			from, ok := info.TypeOf(c.Args[0]).Underlying().(*types.Basic)
+			if ok && from.Kind() == types.Uint64 {
+				bad = c
+			}
+			return true
+		})
+		if bad == nil {
+			rc.OK(name+"/value-stays-unsigned", fd.Pos(), "no uint64 is converted to a signed integer type")
+		} else {
+			rc.Bad(name+"/value-stays-unsigned", bad.Pos(), "%s converts the parsed uint64 to a signed type: values from 2^63 up become negative and pass a signed range test (18446744073709551615 into a uint8 is stored as 255 where encoding/json reports an error)", core.Src(p.Fset, bad))
+		}
+	}
+	if n < 4 {
+		rc.Unknown("decoder/uintDecoder-methods", token.NoPos, "found %d methods of uintDecoder (confirmed: 7)", n)
+	}
+}
